@@ -252,6 +252,8 @@ class ExprMixin(object):
       return VModule(q)
     if name in self.reg.classes and (self.spec_depth or mod is None):
       return VClass(name)
+    if name == 'assume' and self.ghost_depth:
+      return VBound('ghostassume', name)
     if name in BUILTINS:
       return VBound('builtin', name)
     raise Unsupported('unbound name %s at line %s' % (name, getattr(node, 'lineno', '?')))
